@@ -1,5 +1,6 @@
 CONSTANTS
-  Acc = {"a", "b", "c"} Names = {"alpha.jkl", "ab.ibc", "beta.jkl"} NameInfo <- MCNameInfo FreeNames = {"freeone.jkl"}
+  Acc = {"a", "b", "c"} NameInfo <- MCNameInfo FreeNames = {"freeone.jkl"}
+  Names = {"alpha.jkl", "ab.ibc", "beta.jkl"}
   Denoms = {"ujkl", "uusd"} Years = {1, 2} Datas = {"{}", "d1"} Recs = {"r1", "r2"}
   Prices <- MCPrices PriceAmts = {1, 777, 2000000}
   Jumps <- MCAllJumps
